@@ -1,16 +1,17 @@
-use c04::tree::{Case, Form, IdForm, Incoming, Item, Node, RngKind, RunHow};
+use c04::tree::{Case, CtxtKind, Form, IdForm, Incoming, Inner, Item, Node, RngKind, RunHow};
 use vcore::proptest::prelude::*;
 use vcore::Level;
 
-const RULE: &str = "a case is a span tree as data (<=24 span nodes, nesting depth <=6): every node has a form (attribute on sync fn / async fn, new_span! with Frame::call / Frame::enter / Frame::in_future, guard: parameter sync / async, when: parameter, ok_lvl/err_lvl Result-returning sync / async fn, and four hand-off forms where the frame returned by new_span! itself is moved to a fresh thread and entered there by call / in_fn / enter (guard completed there or back on the parent inside the frame) or is polled through in_future alternately on fresh threads and the awaiting thread), an enabled flag (disabled = rejected by the runtime filter through its module, or by `when`), and a body of child spans, emit! events, SpanCtxt::current checks, yields, thread hops (with or without a carried Frame::current, entered by call or in_future as the very first act of the fresh thread, which afterwards goes on with unrelated work of its own: checks, events, root spans) non-span frames (Frame::current / Frame::push with a plain property) captured at one point — typically at top level before any span — and entered later somewhere else (inside spans, on other threads) by call / enter guard / in_future / on a fresh thread, planned panics (quiet resume_unwind) that leave any of these scopes by unwinding up to a catch_unwind (explicit Catch item, in async code around every poll; or the top of the hop / hand-off thread) after which the same thread is used on, and joins of async tasks polled by a generated schedule; optionally incoming trace/span ids are pushed before the root as typed values, lower/upper-case hex strings or integers; the rng is a non-repeating counter (or yields nothing). It is interpreted by fixed macro call sites on a private runtime and judged relationally from the recorded events. Non-trivial = span nesting depth >=3, or a disabled node with an enabled descendant, or an async join, or a thread hop, or incoming ids given as hex strings.";
+const RULE: &str = "a case is a span tree as data (<=24 span nodes, nesting depth <=6): every node has a form (attribute on sync fn / async fn, new_span! with Frame::call / Frame::enter / Frame::in_future, guard: parameter sync / async, when: parameter, ok_lvl/err_lvl Result-returning sync / async fn, and four hand-off forms where the frame returned by new_span! itself is moved to a fresh thread and entered there by call / in_fn / enter (guard completed there or back on the parent inside the frame) or is polled through in_future alternately on fresh threads and the awaiting thread), an enabled flag (disabled = rejected by the runtime filter through its module, or by `when`), and a body of child spans, emit! events, SpanCtxt::current checks, yields, thread hops (with or without a carried Frame::current, entered by call or in_future as the very first act of the fresh thread, which afterwards goes on with unrelated work of its own: checks, events, root spans) non-span frames (Frame::current / Frame::push with a plain property) captured at one point — typically at top level before any span — and entered later somewhere else (inside spans, on other threads) by call / enter guard / in_future / on a fresh thread, planned panics (quiet resume_unwind) that leave any of these scopes by unwinding up to a catch_unwind (explicit Catch item, in async code around every poll; or the top of the hop / hand-off thread) after which the same thread is used on, and joins of async tasks polled by a generated schedule; optionally incoming trace/span ids are pushed before the root as typed values, lower/upper-case hex strings or integers; the rng is a non-repeating counter (or yields nothing); the ambient context the private runtime is built with is generated too: the real ThreadLocalCtxt, a minimal user context that implements only the required Ctxt methods (flat list frames, the provided open_push = open_root(props.and_props(current)) and open_disabled, so its current props list innermost first WITH duplicate keys, which Props allows: first wins; or de-duplicating in open_root), and Arc<dyn ErasedCtxt> over these, over a frame-chain context with its own open_push (duplicates again) and over Option / Arc / Box wrappers of them. It is interpreted by fixed macro call sites (generic over the context) on a private runtime and judged relationally from the recorded events. Non-trivial = span nesting depth >=3, or a disabled node with an enabled descendant, or an async join, or a thread hop, or incoming ids given as hex strings.";
 
-const ASSUMPTIONS: [&str; 6] = [
+const ASSUMPTIONS: [&str; 7] = [
     "the oracle never predicts which id the rng hands out: each enabled span's ids are read from its own span event (identified by a unique module name) and only the relations stated by the property are demanded",
     "the rng never repeats and never yields 0 (bijective mix of a counter); with the rng that yields nothing no incoming ids are generated and the oracle is `no ids anywhere, nothing panics` (rustdoc of SpanId::random / SpanCtxt::new)",
     "incoming ids are a trace id with or without a span id; a span id without a trace id is not generated (the statement speaks of `the incoming ids`)",
     "events outside every enabled span show the incoming values in the representation they were pushed in (hex text either case, or decimal for integers); they are compared after parsing by that representation",
     "span_parent on non-span events, the trace ids of unrelated roots being different, and duplicate id keys behind the first occurrence are not judged (the statement is silent)",
     "thread hops are joined before the parent continues, so a case is deterministic; true parallelism is irrelevant because all state is per thread",
+    "the harness's own contexts keep what ThreadLocalCtxt documents and the model relies on: a frame is a full snapshot of what was ambient where it was made, enter/exit swap it with the per-thread, per-instance current set; they list properties innermost first and may repeat a key (rustdoc of Props: the first value for a key is the one to use); how often the ambient props list span_id is measured at every check point for classification only",
 ];
 
 fn form() -> impl Strategy<Value = Form> {
@@ -140,6 +141,27 @@ fn span_value() -> impl Strategy<Value = u64> {
     ]
 }
 
+/// The ambient context the case's runtime is built with: the real one, the plain user contexts, and all of
+/// them (also behind `Option` / `Arc` / `Box`) in the object-safe form.
+fn ctxt_kind() -> impl Strategy<Value = CtxtKind> {
+    let inner = prop_oneof![
+        2 => Just(Inner::ThreadLocal),
+        1 => Just(Inner::SomeThreadLocal),
+        2 => Just(Inner::Stack),
+        1 => Just(Inner::StackDedup),
+        2 => Just(Inner::Chain),
+        1 => Just(Inner::SomeStack),
+        1 => Just(Inner::ArcStack),
+        1 => Just(Inner::BoxChain),
+    ];
+    prop_oneof![
+        8 => Just(CtxtKind::ThreadLocal),
+        5 => Just(CtxtKind::Stack { dedup: false }),
+        1 => Just(CtxtKind::Stack { dedup: true }),
+        6 => inner.prop_map(CtxtKind::Erased),
+    ]
+}
+
 fn case() -> impl Strategy<Value = Case> {
     let incoming = prop_oneof![
         1 => Just(None),
@@ -151,7 +173,7 @@ fn case() -> impl Strategy<Value = Case> {
             .prop_map(|(trace, span, form)| Some(Incoming { trace: ((trace >> 64) as u64, trace as u64), span, form })),
     ];
     let rng = prop_oneof![12 => any::<u64>().prop_map(RngKind::Counter), 1 => Just(RngKind::Empty)];
-    (rng, incoming, prop::collection::vec(any::<bool>(), 0..4), panic_prologue(), body(7)).prop_map(|(rng, incoming, captures, prologue, mut items)| {
+    (rng, incoming, prop::collection::vec(any::<bool>(), 0..4), panic_prologue(), body(7), ctxt_kind()).prop_map(|(rng, incoming, captures, prologue, mut items, ctxt)| {
         if let Some(p) = prologue {
             items.insert(0, p);
         }
@@ -162,7 +184,7 @@ fn case() -> impl Strategy<Value = Case> {
         let mut budget = 24;
         limit(&mut items, &mut budget, 0, false);
         let incoming = if rng == RngKind::Empty { None } else { incoming };
-        Case { rng, incoming, items }
+        Case { rng, incoming, items, ctxt }
     })
 }
 
@@ -191,6 +213,26 @@ fn main() {
         s.require("own-frame-handoff-disabled-with-descendants", 100);
         s.require("own-frame-handoff-enabled-with-descendants", 100);
         s.require("empty-rng", 50);
+        // the ambient context as a dimension (quick, seeds 0-4: each at least 8x its minimum)
+        s.require("ctxt:thread-local", 1000);
+        s.require("ctxt:thread-local/enabled-chain>=3", 150);
+        s.require("ctxt:plain-stack/provided-open-push/duplicates", 500);
+        s.require("ctxt:plain-stack/provided-open-push/duplicates/enabled-chain>=3", 100);
+        s.require("ctxt:plain-stack/provided-open-push/dedup-in-open-root", 100);
+        s.require("ctxt:erased/enabled-chain>=3", 100);
+        for inner in ["thread-local", "some-thread-local", "plain-stack-duplicates", "plain-stack-dedup", "frame-chain-duplicates", "some-plain-stack-duplicates", "arc-plain-stack-duplicates", "box-frame-chain-duplicates"] {
+            s.require(&format!("ctxt:erased/{inner}"), 40);
+        }
+        s.require("ctxt:lists-duplicates/enabled-chain>=3", 150);
+        s.require("ctxt:lists-duplicates/event-inside-enabled-chain>=3", 50);
+        s.require("ctxt:lists-duplicates/revert-after-enabled-chain>=3-span-ends", 100);
+        s.require("ctxt:lists-duplicates/disabled-with-enabled-descendant", 200);
+        s.require("ctxt:lists-duplicates/thread-hop", 200);
+        s.require("ctxt:lists-duplicates/own-frame-handoff", 200);
+        s.require("ctxt:lists-duplicates/async-join", 200);
+        s.require("ctxt:lists-duplicates/incoming-ids", 200);
+        // measured at the check points, not assumed from the kind of context
+        s.require("ambient-props-list-span-id-3x-or-more", 200);
         s.gen("span-trees", s.n(20_000, 600_000), case, c04::check_case);
     })
 }
